@@ -52,6 +52,11 @@ def xspec(spec, rng):
     xs["tags"] = tags
     xs["terms"] = terms
     xs["late_tags"] = [t for t in terms if rng.random() < 0.2]
+    # explicit numbers for some named tokens; for some of them the number arrives in a later, untagged `%token NAME number`
+    # line that follows a differently tagged declaration
+    if "nums" not in xs:
+        xs["nums"] = {t: 300 + 7 * i for i, t in enumerate(spec["tokens"]) if rng.random() < 0.3}
+    xs["late_nums"] = [t for t in xs["nums"] if t not in xs["late_tags"] and rng.random() < 0.6]
     xs["K"] = [rng.randrange(50) for _ in spec["rules"]]
     xs["coef"] = [[rng.randrange(1, 10) for _ in r["rhs"]] for r in spec["rules"]]
     xs["form"] = [rng.choice([0, 0, 1, 2, 3]) for _ in spec["rules"]]
@@ -145,9 +150,13 @@ def render_x(xs, target, pkg, obj, trace):
             if not t.startswith("'"):
                 out.append("%%token %s%s\n" % (t, (" %d" % num) if num else ""))
             continue
+        if t in xs.get("late_nums", []):
+            num = None
         out.append("%%token <%s> %s%s\n" % (tags[t], t, (" %d" % num) if num else ""))
     for n in xs["nts"]:
         out.append("%%type <%s> %s\n" % (tags[n], n))
+    for t in xs.get("late_nums", []):
+        out.append("%%token %s %d\n" % (t, xs["nums"][t]))
     for kind, syms in xs.get("prec", []):
         out.append("%%%s %s\n" % (kind, " ".join(syms)))
     for t in late:
@@ -926,6 +935,7 @@ import "os"
 }
 %token <val> NUM
 %token <str> SUB
+%token <str> TRY
 %type <val> E Q
 %left '+'
 %left '*'
@@ -935,6 +945,7 @@ E : E '+' E { $$ = $1 + $3 }
   | E '*' E { $$ = $1 * $3 }
   | NUM { $$ = $1 }
   | Q { $$ = $1 }
+  | TRY { $$ = tryParse($1) }
   | Q NUM { $$ = $1 * 1000 + $2 }
   ;
 Q : SUB { PushContex(); ParserInit(); v := Parser($1); PopContex(); $$ = v.val * 2 }
@@ -959,6 +970,16 @@ func GetToken(input string, valTy *ValType, pos *int) int {
 	case c == '&':
 		*pos++
 		return '&'
+	case c == '[':
+		depth, i := 0, *pos
+		for ; i < len(input); i++ {
+			if input[i] == '[' { depth++ }
+			if input[i] == ']' { depth--; if depth == 0 { break } }
+		}
+		if i >= len(input) { *pos = len(input); return 9999 }
+		valTy.str = input[*pos+1 : i]
+		*pos = i + 1
+		return TRY
 	case c == '{':
 		depth, i := 0, *pos
 		for ; i < len(input); i++ {
@@ -972,6 +993,16 @@ func GetToken(input string, valTy *ValType, pos *int) int {
 	}
 	*pos++
 	return 9999
+}
+// tryParse: a nested parse whose failure is CAUGHT: the enclosing parse goes on with -1
+func tryParse(s string) (r int) {
+	PushContex()
+	defer PopContex()
+	defer func() { if e := recover(); e != nil { r = -1 } }()
+	ParserInit()
+	v := Parser(s)
+	if v == nil { return -1 }
+	return v.val
 }
 func run(in string) (out string) {
 	defer func() { if e := recover(); e != nil { out = "reject" } }()
@@ -991,7 +1022,9 @@ NESTED_INPUTS = ["1+2", "{2}", "1+{2}", "100+{2+}", "1+{2}", "{1+{2}}", "7+{{3}+
                  # the nested parse starts while the outer stack is LOWER than it has been before (after `2*3` was reduced)
                  "1+2*3+{4}", "2*3*4+{1+1}", "1+2*{3}", "5*6+{7*{8}}+1", "1+2*3+{4+}", "2*{1+2}3+1",
                  # two nested parses in one action: the result of the first is read after the second has run
-                 "{1+2}&{3*4}", "5+{7}&{2}", "{{1}&{2}}&{9}", "{3}&{4+}", "{1}&{2}7"]
+                 "{1+2}&{3*4}", "5+{7}&{2}", "{{1}&{2}}&{9}", "{3}&{4+}", "{1}&{2}7",
+                 # a nested parse that is rejected and CAUGHT: the enclosing parse continues where it was
+                 "[1+2]+3", "[1+]+2", "[1+]+2+3", "[12[]+5", "2+[7+]", "[+]*5+1", "[{2+}]+4", "[1+[2+]]"]
 
 
 def nested_expected(w):
@@ -1013,6 +1046,21 @@ def nested_expected(w):
         def atom():
             if pos[0] < len(s) and s[pos[0]].isdigit():
                 return num()
+            if pos[0] < len(s) and s[pos[0]] == "[":
+                depth, j = 0, pos[0]
+                while j < len(s):
+                    if s[j] == "[":
+                        depth += 1
+                    if s[j] == "]":
+                        depth -= 1
+                        if depth == 0:
+                            break
+                    j += 1
+                if j >= len(s):
+                    return None
+                v = parse(s[pos[0] + 1:j])
+                pos[0] = j + 1
+                return -1 if v is None else v      # a rejected nested parse is caught: the enclosing parse goes on with -1
             if pos[0] < len(s) and s[pos[0]] == "{":
                 depth, j = 0, pos[0]
                 while j < len(s):
@@ -1088,6 +1136,8 @@ def nested_variant(obj, counter):
                       "sub := MakeParserContext(); v := sub.Parser($1); $$ = v.val * 2")
         y = y.replace("PushContex(); ParserInit(); l := Parser($1); PopContex(); PushContex(); ParserInit(); r := Parser($3); PopContex(); $$ = l.val * 100 + r.val",
                       "sub := MakeParserContext(); l := sub.Parser($1); sub.ParserInit(); r := sub.Parser($3); $$ = l.val * 100 + r.val")
+        y = y.replace("\tPushContex()\n\tdefer PopContex()\n\tdefer func() { if e := recover(); e != nil { r = -1 } }()\n\tParserInit()\n\tv := Parser(s)\n",
+                      "\tsub := MakeParserContext()\n\tdefer func() { if e := recover(); e != nil { r = -1 } }()\n\tv := sub.Parser(s)\n")
         y = y.replace("\tParserInit()\n\tv := Parser(in)\n", "\tTheCtx.ParserInit()\n\tv := TheCtx.Parser(in)\n")
         y = y.replace("func run(in string) (out string) {", "var TheCtx = MakeParserContext()\nfunc run(in string) (out string) {")
     return y
